@@ -112,6 +112,8 @@ class ToSympy:
             return sp.Integer(0)
         if op == "ones_like":
             return sp.Integer(1)
+        if op in ("full_like", "new_full"):
+            return c(a[-1] if "fill_value" not in t.kwd() else t.kwd()["fill_value"])
         if op == "cos":
             return sp.cos(c(a[0]))
         if op == "sin":
